@@ -31,14 +31,23 @@ func GetLabelsValues(obj *metav1.ObjectMeta) ([]string, []string) {
 
 // BuildInfoLabels build the lists of label keys and values from the ObjectMeta Labels.
 func BuildInfoLabels(obj *metav1.ObjectMeta) ([]string, []string) {
-	labelKeys := []string{}
+	rawKeys := make([]string, 0, len(obj.Labels))
 	for key := range obj.Labels {
-		labelKeys = append(labelKeys, sanitizeLabelName(key))
+		rawKeys = append(rawKeys, key)
 	}
-	sort.Strings(labelKeys)
+	sort.Slice(rawKeys, func(i, j int) bool {
+		si, sj := sanitizeLabelName(rawKeys[i]), sanitizeLabelName(rawKeys[j])
+		if si == sj {
+			return rawKeys[i] < rawKeys[j]
+		}
 
-	labelValues := make([]string, len(obj.Labels))
-	for i, key := range labelKeys {
+		return si < sj
+	})
+
+	labelKeys := make([]string, len(rawKeys))
+	labelValues := make([]string, len(rawKeys))
+	for i, key := range rawKeys {
+		labelKeys[i] = sanitizeLabelName(key)
 		labelValues[i] = obj.Labels[key]
 	}
 
